@@ -84,6 +84,9 @@ func emitNodeAssemblerMethodAssignNode_mapoid(w io.Writer, adjCfg *AdjunctCfg, d
 				if err != nil {
 					return err
 				}
+				if v.IsAbsent() {
+					continue // an absent value (an unset optional field of a typed struct) is not an entry.
+				}
 				if err := na.AssembleKey().AssignNode(k); err != nil {
 					return err
 				}
